@@ -257,22 +257,23 @@ def analyse(fn, summaries=None, outer=None, qual=None, nested_out=None, want_ret
         if isinstance(s, (ast.With, ast.AsyncWith)): return [i.context_expr for i in s.items]
         if isinstance(s, ast.Try): return []
         return [s]
-    def assign(tt, val, A, whole):
-        """bind target `tt` to the value of `val` (`whole`: tt receives all of val; otherwise an element of it)"""
+    def assign(tt, val, A, whole, src):
+        """bind target `tt` to the value of `val` as evaluated in the state `src` (the state before the statement: the targets of a
+        tuple assignment are bound simultaneously); `whole`: tt receives all of val, otherwise an element of it"""
         if isinstance(tt, (ast.Tuple, ast.List)):
             if isinstance(val, (ast.Tuple, ast.List)) and len(val.elts) == len(tt.elts) and not any(isinstance(x, ast.Starred) for x in list(val.elts) + list(tt.elts)):
-                for x, v in zip(tt.elts, val.elts): assign(x, v, A, True)
+                for x, v in zip(tt.elts, val.elts): assign(x, v, A, True, src)
             else:
-                for x in tt.elts: assign(x, val, A, False)
+                for x in tt.elts: assign(x, val, A, False, src)
             return
         if isinstance(tt, ast.Starred):
-            return assign(tt.value, val, A, False)
+            return assign(tt.value, val, A, False, src)
         if isinstance(tt, (ast.Subscript, ast.Attribute)):
             b = base_name(tt)
-            if A.get(b) and not is_fresh_entry(tt):
-                event(tt.lineno, '%s =' % ast.unparse(tt), A[b])
+            if src.get(b) and not is_fresh_entry(tt):
+                event(tt.lineno, '%s =' % ast.unparse(tt), src[b])
         elif isinstance(tt, ast.Name):
-            r = R(val, A) if val is not None else set()
+            r = R(val, src) if val is not None else set()
             if whole:
                 fr = fun_refs(val) if val is not None else set()
                 if fr: F[tt.id] = set(F.get(tt.id, ())) | fr
@@ -298,7 +299,7 @@ def analyse(fn, summaries=None, outer=None, qual=None, nested_out=None, want_ret
                     if r: A[t.id] = set(r)
                     else: A.pop(t.id, None)
                 else:
-                    tmp = dict(before); assign(t, s.value, tmp, True)
+                    tmp = dict(before); assign(t, s.value, tmp, True, before)
                     for k in set(tmp) | set(before):
                         if tmp.get(k) != before.get(k):
                             if tmp.get(k): A[k] = tmp[k]
